@@ -102,7 +102,7 @@ fn exec_inner(t: &[&str]) -> Option<String> {
 
 fn be(b: &[u8]) -> BigUint { BigUint::from_bytes_be(b) }
 
-enum Verdict { Ok(&'static str), Known(String), Bad(String) }
+enum Verdict { Ok(&'static str), Bad(String) }
 
 /// The property, independent of the model.
 fn oracle(req: &str, resp: &str) -> Verdict {
@@ -127,17 +127,7 @@ fn oracle(req: &str, resp: &str) -> Verdict {
                 Some(p[off + 32..off + 32 + len].to_vec())
             })();
             if abi_slice.as_deref() == Some(&blob[..]) { return Verdict::Ok("full.ok"); }
-            // literal property violated. Known class F-C28: upper 24 bytes of the offset or length word are
-            // non-zero and the blob is the slice described by the LOW 8 bytes of both words.
-            let off = u64::from_be_bytes(p[120..128].try_into().unwrap()) as usize;
-            let upper_off = p[96..120].iter().any(|x| *x != 0);
-            if off >= 128 && off + 32 <= p.len() {
-                let upper_len = p[off..off + 24].iter().any(|x| *x != 0);
-                let len = u64::from_be_bytes(p[off + 24..off + 32].try_into().unwrap()) as usize;
-                if (upper_off || upper_len) && off + 32 + len <= p.len() && blob == p[off + 32..off + 32 + len] {
-                    return Verdict::Known("decode_full_report ignores the upper 24 bytes of the ABI offset/length word: blob returned although the ABI-described slice differs or does not exist".into());
-                }
-            }
+            // since /repo 3d0a82d non-zero upper bytes are rejected, so there is no tolerated class any more
             Verdict::Bad("blob is not the ABI-described slice of the payload".into())
         }
         "head" => {
@@ -240,8 +230,8 @@ fn gen_req(r: &mut Rng) -> String {
                 4 => { let rem = (p.len() - off - 32) as u64; p[off + 24..off + 32].copy_from_slice(&(rem + r.below(3)).wrapping_sub(1).to_be_bytes()); } // length = remaining ± 1
                 5 => { let n = r.below(p.len() as u64 + 1) as usize; p.truncate(n); }
                 6 => { p = { let n = r.below(260) as usize; rand_bytes(r, n) }; }
-                7 | 8 => { let i = 96 + r.below(24) as usize; p[i] = 1 + r.below(255) as u8; }             // F-C28: upper bytes of the offset word
-                9 | 10 => { let i = off + r.below(24) as usize; p[i] = 1 + r.below(255) as u8; }            // F-C28: upper bytes of the length word
+                7 | 8 => { let i = 96 + r.below(24) as usize; p[i] = 1 + r.below(255) as u8; }             // non-zero upper bytes of the offset word (must be rejected)
+                9 | 10 => { let i = off + r.below(24) as usize; p[i] = 1 + r.below(255) as u8; }            // non-zero upper bytes of the length word (must be rejected)
                 _ => {}
             }
             format!("cl full {}", tohex(&p))
@@ -286,7 +276,6 @@ fn main() {
         if resp != "bad-op" {
             match std::panic::catch_unwind(|| oracle(&req, &resp)) {
                 Ok(Verdict::Ok(tag)) => { out.stat("oracle.checked"); out.stat(&format!("class.{tag}")); }
-                Ok(Verdict::Known(what)) => { out.stat("class.full.known-F-C28"); out.known("F-C28", &what, &req); }
                 Ok(Verdict::Bad(what)) => out.oracle_fail(&what, &req),
                 Err(_) => out.oracle_fail("oracle panicked", &req),
             }
